@@ -221,6 +221,17 @@ func gobEncodeItem(it Item) ([]byte, error) {
 				return err
 			})
 		}
+		if err != nil {
+			// the type name belongs to a larger struct than the one that carries it (ObjectNew(PlaceType), an Object
+			// decoded from a Person document): the value is written by its own struct, as the JSON encoder does
+			if enc, ok := it.(gob.GobEncoder); ok {
+				b.Reset()
+				var bytes []byte
+				if bytes, err = enc.GobEncode(); err == nil {
+					b.Write(bytes)
+				}
+			}
+		}
 	}
 	return b.Bytes(), err
 }
